@@ -77,7 +77,10 @@ def trace_global(evs, rc):
         idx.setdefault((t, site), []).append(i)
     last = lambda k: idx[k][-1] if k in idx else None
     if ("main", "m.joinS") not in idx:
-        return probs            # the run ended before main finished (init error): nothing to check
+        if ("main", "m.droprecv") in idx:
+            # the workers were started, but the process ended by itself without main ever joining them
+            probs.append("the process exited while its worker threads were still running (main never reached its final join)")
+        return probs            # otherwise the run ended before any worker was started (init error): nothing to check
     mj = last(("main", "m.joinS"))
     # every thread that logged anything must have logged its exit before main's final join
     ends = {"Reader": "r.exit", "Analysis": "a.exit", "stats_thread": "c.exit", "Writer": "w.drop"}
@@ -164,6 +167,8 @@ class Scn:
         self.stdout_mode = stdout_mode  # "null" | "drain" | "close"
 
 
+import re as _re
+STOP_RE = _re.compile(rb" c\.recv \d 1\n")
 TMAX = 20.0       # seconds a run may take after its stop condition (generous: loaded machine)
 
 
@@ -227,6 +232,7 @@ def run_scn(s, scr, idx):
                 p.stdout.close()
 
     stop_t = [None]
+    sent_after_stop = [False]
     ths = []
     if stdin == subprocess.PIPE:
         ths.append(threading.Thread(target=feed, daemon=True))
@@ -235,6 +241,37 @@ def run_scn(s, scr, idx):
         ths.append(threading.Thread(target=rd_out, daemon=True))
     for t in ths:
         t.start()
+    if s.action[0] == "stop_then_signal":
+        # wait until the controller has raised the stop flag (event `c.recv <kind> 1`), then deliver ONE signal
+        seen = False
+        pos = 0
+        tail = b""
+        t_wait = time.time()
+        while p.poll() is None and time.time() - t_wait < 40:
+            try:
+                with open(trace, "rb") as tf:
+                    tf.seek(pos)
+                    chunk = tf.read()
+            except OSError:
+                chunk = b""
+            if chunk:
+                pos += len(chunk)
+                buf = tail + chunk
+                if STOP_RE.search(buf):
+                    seen = True
+                    break
+                tail = buf[-40:]
+            else:
+                time.sleep(0.001)
+        if seen and p.poll() is None:
+            time.sleep(s.action[2])
+            if p.poll() is None:
+                stop_t[0] = time.time()
+                try:
+                    p.send_signal(s.action[1])
+                    sent_after_stop[0] = True
+                except ProcessLookupError:
+                    pass
     if s.action[0] == "signal":
         time.sleep(s.action[2])
         if p.poll() is None:
@@ -279,6 +316,9 @@ def run_scn(s, scr, idx):
         viol.append("terminated by signal %d (%s)" % (-rc, "abort: panic in a thread" if -rc == signal.SIGABRT else "crash"))
     elif rc == 101:
         viol.append("exit status 101 (panic)")
+    res["signal_after_controller_stop"] = sent_after_stop[0]
+    if s.action[0] in ("signal", "stop_then_signal") and "ungraceful shutdown" in stderr:
+        viol.append("ungraceful shutdown (process::exit with running workers) after a single signal")
     if "panicked at" in stderr or "Well, this is embarrassing" in stderr:
         viol.append("panic text on stderr: " + " ".join(l for l in stderr.split("\n") if "panicked at" in l or "embarrassing" in l)[:300])
     if s.out_file:
@@ -463,6 +503,27 @@ def _scenarios(chk, rng, tier, scr, model_ok, facts):
             scns.append(Scn("full-queue-close", a, data, "endless", "0:a.recv=20000", ("close", 30000), stdout_mode="close"))
         else:
             scns.append(Scn("full-queue-signal", a, data, "endless", "0:a.recv=20000", ("signal", signal.SIGINT, 1.5)))
+    # F. ONE signal after the controller has already raised the stop flag (fatal error / cap), while the workers wind down
+    npk_big = 3000 if quick else 16000
+    big = []
+    for i in range(npk_big):
+        big.append(rawdata.mk_rdh(link=2, fee=0x0102, pages=0, stop=0, orbit=7 + i, payload_len=8047, pktcnt=i & 0xFF) + bytes([(i * 7 + 1) & 0xFF]) * 8047)
+    f_big = os.path.join(scr, "big_fatal.raw")
+    bad_tail = bytearray(rawdata.mk_rdh(link=2, fee=0x0102, payload_len=0))
+    struct.pack_into("<H", bad_tail, 8, 0)
+    with open(f_big, "wb") as f:
+        f.write(b"".join(big))
+        f.write(bytes(bad_tail))
+        f.write(bytes(4096))
+    for i in range(3 if quick else 16):
+        outp = os.path.join(scr, "outbig_%d.raw" % i)
+        d = [0.0, 0.002, 0.01, 0.03, 0.0005, 0.005][i % 6]
+        scns.append(Scn("stop-then-signal-write", ["--filter-link", "2", "-o", outp], f_big, "file", None,
+                        ("stop_then_signal", rng.choice([signal.SIGINT, signal.SIGTERM]), d), out_file=outp, expect_pkts=big))
+    for i in range(2 if quick else 10):
+        d = [0.0, 0.003, 0.02][i % 3]
+        scns.append(Scn("stop-then-signal-cap", ["check", "all", "-e", "3"], b"".join(pk_err), "endless", rng.choice([None, "0:v.recv=200", "0:a.recv=3000"]),
+                        ("stop_then_signal", signal.SIGINT, d)))
     # run (scenario runs are timing-sensitive: a few at a time)
     results = core.par_map(lambda t: run_scn(t[1], scr, t[0]), list(enumerate(scns)), workers=4)
     # verdicts
